@@ -21,6 +21,9 @@ CHECKS["C03"] = ("exploration", "metamorphic PBT: same case under generated sync
 CHECKS["C04"] = ("fault_enumeration", "exhaustive close-position / single-fault / athrow enumeration per generated case; release invariant on instrumented sources; tee and groupby close histories",
   "Every generated case is expanded to all numbers of items taken before close, exhaustion, all single fault positions and consumer athrow after every prefix, in a loop with and without asyncgen hooks, with sources whose cleanup suspends; afterwards every async iterator passed in must be closed or exhausted and aclose must not raise; tee/groupby advance-close histories check 'source released iff last child done'.",
   "released is observed on the doubles before any GC; raise path is judged after the owner closed the handle; bounded inputs", "4/C04")
+CHECKS["C18"] = ("fault_enumeration", "exhaustive cancellation-point enumeration per generated operation on a hand-driven event loop",
+  "For each generated operation (all tools/aggregations with suspending sources and callables, tee+lock, lru_cache, cached_property+lock, ExitStack, scoped_iter blocks) a Cancel object is thrown at EVERY suspension point 1..N in separate runs; that object must propagate, sources be released, locks free and balanced, exits run once with it, caches consistent and usable.",
+  "one cancellation per run; cleanup itself does not suspend; suspension points are those of user awaitables (C17 shows there are no others)", "4/C18")
 REASONS = {}
 props = [json.loads(l)["id"] for l in open(os.path.join(HERE, "properties.jsonl"))]
 checks = []
